@@ -292,9 +292,11 @@ type principal struct {
 
 func mkPrincipal(a *actor, extra ...[]byte) *principal {
 	p := &principal{actor: a}
-	p.needles = [][]byte{a.Acc, []byte(a.Acc.String()), []byte(sdk.ValAddress(a.Acc).String()), a.EthRaw}
+	// chain addresses only: an external-chain address inside a record is content
+	// (a destination, a token contract, a registered account); every record held in
+	// a validator's name carries its operator / account address as well
+	p.needles = [][]byte{a.Acc, []byte(a.Acc.String()), []byte(sdk.ValAddress(a.Acc).String())}
 	p.needles = append(p.needles, extra...)
-	p.lower = [][]byte{[]byte(strings.ToLower(strings.TrimPrefix(a.EthHex, "0x")))}
 	return p
 }
 
